@@ -217,7 +217,14 @@ func main() {
 		n, _ := strconv.Atoi(os.Args[3])
 		kernStream(seed, n, os.Args[4])
 	default:
+		if f, ok := extraModes[os.Args[1]]; ok {
+			f(os.Args[2:])
+			return
+		}
 		fmt.Println("unknown mode")
 		os.Exit(2)
 	}
 }
+
+// extraModes lets additional harness files (same package) register their own entry points in init().
+var extraModes = map[string]func(args []string){}
